@@ -243,6 +243,26 @@ QAll      == UNION {QPair(n) : n \in 0..(NG - 1)}
 MomDeps(i) == XAll \cup lamdeps \cup UNION {QPair(lp * g.D + i) : lp \in 0..(L - 1)}
 
 (***************************************************************************)
+(* Kinematic arguments.  cfg.massargs is the set of edges whose mass was   *)
+(* passed as Some(m) with the call (None = absent), cfg.loopedges the edges*)
+(* whose row of the loop signature is not zero.  The `is_massive` flag of  *)
+(* the graph shapes the tropical approximation only: V is made of the      *)
+(* masses GIVEN WITH THE CALL,  V = sum_e x_e (m_e^2 + p_e^2) - u^T L^-1 u *)
+(* with u_l = sum_e s_el x_e p_e.  Hence, exactly:                         *)
+(***************************************************************************)
+KinMasses(name) ==
+   CASE name \in {"v", "jac", "mom"} -> cfg.massargs          \* through V
+     [] OTHER -> {}                                           \* u, L, L^-1 u, lambda, the tropical values: none
+\* (data dependence as the tracking scalar sees it is value-blind: s_el x_e p_e depends on p_e also where s_el = 0, so for
+\*  L^-1 u the edges that carry loop momentum are required and any further edge is tolerated)
+KinShiftsMin(name) ==
+   CASE name \in {"v", "jac", "mom"} -> 1..E                  \* p_e^2 of every edge enters V
+     [] name = "shift" -> cfg.loopedges                       \* L^-1 u: edges that carry loop momentum
+     [] OTHER -> {}
+KinShiftsMax(name) == IF name = "shift" THEN 1..E ELSE KinShiftsMin(name)
+KinTypeOK == cfg.massargs \subseteq 1..E /\ cfg.loopedges \subseteq 1..E
+
+(***************************************************************************)
 (* Properties                                                              *)
 (***************************************************************************)
 TypeOK ==
